@@ -313,11 +313,20 @@ func ruleFmt(c *Ctx) {
 					return
 				}
 				cal := call.Call.StaticCallee()
-				if cal == nil || cal.Pkg == nil || cal.Pkg.Pkg.Path() != "strconv" || cal.Name() != "FormatFloat" || len(call.Call.Args) != 4 {
+				if cal == nil || cal.Pkg == nil || cal.Pkg.Pkg.Path() != "strconv" || (cal.Name() != "FormatFloat" && cal.Name() != "AppendFloat") {
 					return
 				}
-				vk, ok1 := call.Call.Args[1].(*ssa.Const)
-				pk, ok2 := call.Call.Args[2].(*ssa.Const)
+				// FormatFloat(f, verb, prec, bits) / AppendFloat(dst, f, verb, prec, bits): a second implementation of the
+				// number-to-string conversion, whichever of the two it uses, is held to the same guard
+				off := 0
+				if cal.Name() == "AppendFloat" {
+					off = 1
+				}
+				if len(call.Call.Args) != 4+off {
+					return
+				}
+				vk, ok1 := call.Call.Args[1+off].(*ssa.Const)
+				pk, ok2 := call.Call.Args[2+off].(*ssa.Const)
 				if !ok1 || !ok2 || vk.Value == nil || pk.Value == nil {
 					return
 				}
